@@ -619,6 +619,10 @@ pub fn handle_xreadgroup(storage: &Arc<StorageEngine>, db: usize, parts: &[RespF
     let num_keys = remaining / 2;
     let mut results = Vec::new();
     
+    // Resolve every key, ID and group before anything is delivered: a command that
+    // answers an error must not have moved entries of its earlier keys to the pending list
+    let mut reads = Vec::new();
+    
     for j in 0..num_keys {
         let key = match &parts[i + j] {
             RespFrame::BulkString(Some(bytes)) => bytes.as_ref(),
@@ -649,6 +653,14 @@ pub fn handle_xreadgroup(storage: &Arc<StorageEngine>, db: usize, parts: &[RespF
             }
         };
         
+        if stream.get_consumer_group(&group_name).is_none() {
+            return Ok(RespFrame::error(format!("NOGROUP No such consumer group {} for stream", group_name)));
+        }
+        
+        reads.push((key, stream, after_id));
+    }
+    
+    for (key, stream, after_id) in reads {
         // Read entries for the group
         match stream.read_group(&group_name, &consumer_name, after_id, count, noack) {
             Ok(entries) if !entries.is_empty() => {
